@@ -64,6 +64,7 @@ static uint32_t checked_calls;
 static int pending = -1;      /* actual call whose end-of-call verdict is still outstanding */
 static int pending_match;     /* expectation it consumes, -1: none */
 static uint32_t pending_cat;
+static uint32_t kf_both;     /* the history ends with an open expectation AND an out-of-turn call */
 
 void h_fail_hook(uint8_t* m) {
 #ifdef LL2C_TRANSLATED
@@ -72,6 +73,10 @@ void h_fail_hook(uint8_t* m) {
   uint32_t cat = cat_of_message(m);
 #endif
   OBSERVE(cat);
+#ifdef KF_C08_1
+  /* open finding: under strict order an open expectation hides an earlier out-of-turn call (reported as "not fulfilled") */
+  ASSUME(!kf_both);
+#endif
   CHECK(due != C_NONE, "a failure is reported only when the actual calls deviate from the expectations, and only at the step where the deviation shows");
   CHECK(cat == due, "the reported failure carries the diagnosis of the first deviation");
   WITNESS("failure path");
@@ -138,34 +143,44 @@ static void consume(int m, uint32_t position) {
   if (strict) { int e = expected_at(position); if (e < 0 || !same_spec(&ex[e], &ex[m])) order_bad = 1; }
 }
 
-static void parse_call(const char* s, int* pos, call_t* c) {
-  int i = *pos;
-  c->f = s[i++]; c->hasp = 0; c->haso = 0; c->wantr = 0; c->p = 0;
-  if (s[i] == 'p' || s[i] == 'q') { c->hasp = 1; c->p = s[i++]; }
-  if (s[i] == 'o') { c->haso = 1; i++; }
-  if (s[i] == 'r') { c->wantr = 1; i++; }
-  *pos = i;
+/* ---------------------------------------------------------------- the enumerated family of histories
+ * A history is a number s in mixed radix: flags, then one digit group per expectation, then one per actual call.
+ *   flags        : strict order off/on  x  ignoreOtherCalls off/on
+ *   expectation  : function (the first one is always "a"; later ones a|b)  x  count  x  parameter  x  object
+ *   actual call  : function a|b  x  parameter  x  object  x  asks for its return value no/yes
+ * digit sets  FULL: count 0|1|2, parameter none|p=1|p=2|q=1, object none|o1|o2, return value asked no|yes
+ *             CORE: count 1|2,   parameter none|p=1|p=2,     object none|o1,    return value always asked */
+enum { FULL, CORE };
+static uint32_t take(uint32_t* s, uint32_t radix) { uint32_t d = *s % radix; *s /= radix; return d; }
+static void set_param(call_t* c, uint32_t d) { c->hasp = d != 0; c->p = d == 3 ? 'q' : 'p'; c->v = d == 2 ? 2 : 1; }
+static uint32_t family_size(const int ne, const int na, const int mode) {
+  uint32_t e1 = mode == FULL ? 3 * 4 * 3 : 2 * 3 * 2, a1 = mode == FULL ? 2 * 4 * 3 * 2 : 2 * 3 * 2, t = 4;
+  for (int i = 0; i < ne; i++) t *= i ? 2 * e1 : e1;
+  for (int k = 0; k < na; k++) t *= a1;
+  return t;
 }
-/* script: expectations "_"-separated, "__", actual calls "_"-separated; a call is  <function a|b>[<parameter p|q>][o][r]
- * (o: on an object, r: the actual call asks for its return value) */
-static void parse(const char* s) {
-  int i = 0;
-  NE = 0; NA = 0;
-  for (;;) { parse_call(s, &i, &ex[NE++]); if (s[i] == '_' && s[i + 1] == '_') { i += 2; break; } i++; }
-  for (;;) { parse_call(s, &i, &ac[NA++]); if (!s[i]) break; i++; }
+static void decode(uint32_t s, const int ne, const int na, const int mode) {
+  NE = ne; NA = na;
+  strict = take(&s, 2); ignore_others = take(&s, 2);
+  for (int i = 0; i < ne; i++) {
+    call_t* e = &ex[i];
+    e->f = i && take(&s, 2) ? 'b' : 'a';
+    e->n = mode == FULL ? take(&s, 3) : 1 + take(&s, 2);
+    set_param(e, take(&s, mode == FULL ? 4 : 3));
+    uint32_t o = take(&s, mode == FULL ? 3 : 2); e->haso = o != 0; e->o = o == 2;
+    e->used = 0; e->wantr = 0;
+  }
+  for (int k = 0; k < na; k++) {
+    call_t* a = &ac[k];
+    a->f = take(&s, 2) ? 'b' : 'a';
+    set_param(a, take(&s, mode == FULL ? 4 : 3));
+    uint32_t o = take(&s, mode == FULL ? 3 : 2); a->haso = o != 0; a->o = o == 2;
+    a->wantr = mode == FULL ? take(&s, 2) : 1;
+  }
 }
 
-static void body(const char* script) {
-  h_init();
-  parse(script);
-  IN_BOOL(in_strict); IN_BOOL(in_ignore); IN_ARR_U32(en, MAXE); IN_ARR_U32(ev, MAXE); IN_ARR_U32(eo, MAXE); IN_ARR_U32(er, MAXE);
-  IN_ARR_U32(av, MAXA); IN_ARR_U32(ao, MAXA); IN_U32(dflt);
-  strict = in_strict; ignore_others = in_ignore;
-  for (int i = 0; i < NE; i++) { ASSUME(en[i] <= 2); ex[i].n = en[i]; ex[i].v = ev[i]; ex[i].o = eo[i] & 1; ex[i].rv = er[i]; ex[i].used = 0; }
-  for (int k = 0; k < NA; k++) { ac[k].v = av[k]; ac[k].o = ao[k] & 1; }
-  /* precondition of the property: matching is unambiguous */
-  for (int i = 0; i < NE; i++) for (int j = i + 1; j < NE; j++) ASSUME(!ambiguous(&ex[i], &ex[j]));
-
+/* one history against the real MockSupport; the oracle moves in lockstep */
+static void run_history(uint32_t dflt) {
   if (strict) h_strict();
   if (ignore_others) h_ignore_others();
   for (int i = 0; i < NE; i++) {
@@ -177,7 +192,6 @@ static void body(const char* script) {
   for (int k = 0; k < NA; k++) {
     call_t* a = &ac[k];
     int ign = is_ignored(a);
-    OBSERVE(ign);
     /* a new call first brings the previous one to its end */
     due = C_NONE; settle_pending();
     if (due == C_NONE && pending >= 0) { consume(pending_match, checked_calls); pending = -1; }
@@ -221,12 +235,8 @@ static void body(const char* script) {
     if (pending >= 0) { consume(pending_match, checked_calls); pending = -1; }
     int open = 0;
     for (int i = 0; i < NE; i++) if (ex[i].used != ex[i].n) open = 1;
-#ifdef KF_C08_1
-    /* open finding: with strict order, an out-of-order call AND an unfulfilled expectation are reported as "not fulfilled",
-     * although the out-of-order call is the earlier deviation */
-    ASSUME(!(open && order_bad));
-#endif
     due = order_bad ? C_ORDER : open ? C_UNFULFILLED : C_NONE;
+    kf_both = open && order_bad;
   }
   OBSERVE(due);
   h_check();
@@ -234,7 +244,28 @@ static void body(const char* script) {
   WITNESS("end");
 }
 
-#define S(s) HARNESS(harness_##s) { body(#s); }
-S(ap__ap)
-S(ap__aq)
-S(a__b)
+/* histories lo .. lo+count-1 of family (ne, na, mode); which one runs is a symbolic input, so is every return value */
+static void batch(const int ne, const int na, const int mode, const uint32_t lo, const uint32_t count) {
+  h_init();
+  IN_U32(pick); IN_ARR_U32(er, MAXE); IN_U32(dflt);
+  uint32_t total = family_size(ne, na, mode);
+  uint32_t hi = lo + count < total ? lo + count : total;
+  uint32_t chosen = lo + pick % (hi - lo);
+  OBSERVE(chosen);
+  for (uint32_t s = lo; s < hi; s++) {
+    if (chosen != s) continue;
+    decode(s, ne, na, mode);
+    for (int i = 0; i < ne; i++) ex[i].rv = er[i];
+    /* precondition of the property: matching is unambiguous */
+    for (int i = 0; i < ne; i++) for (int j = i + 1; j < ne; j++) ASSUME(!ambiguous(&ex[i], &ex[j]));
+    run_history(dflt);
+    return;
+  }
+}
+
+#define BATCH(name, ne, na, mode, lo, count) HARNESS(harness_##name) { batch(ne, na, mode, lo, count); }
+BATCH(probe16, 1, 1, FULL, 0, 16)
+BATCH(probe64, 1, 1, FULL, 1000, 64)
+BATCH(p1000, 1, 1, FULL, 1000, 1)
+BATCH(p1001, 1, 1, FULL, 1001, 1)
+BATCH(p1002, 1, 1, FULL, 1002, 1)
